@@ -4,34 +4,51 @@
 (* rational identities of the jax smooth helpers (C30, partial).           *)
 (*                                                                         *)
 (* cs_safe: for a real point p and a perturbation direction dp the helper  *)
-(* evaluated at p + i*h*dp must return  f(p) + i*h*Df(p)[dp].  The case    *)
-(* table (signs, zero, axes, quadrants) and Df(p)[dp] are rational:        *)
-(*   abs     : sign(x) dx ;  at the kink x = 0 a one-sided derivative,     *)
-(*             i.e. +dx or -dx (both one-sided choices are accepted)       *)
-(*   norm    : sum x_i dx_i / ||x||  along the axis, Pythagorean data      *)
+(* evaluated at p + i*h*dp must return  f(p) + i*h*Df(p)[dp]  where        *)
+(* Df(p)[dp] is the ONE-SIDED DIRECTIONAL derivative                       *)
+(*        Df(p)[dp] = lim_{t -> 0+} (f(p + t dp) - f(p)) / t               *)
+(* (the derivative where f is differentiable; at a kink the slope in the   *)
+(* direction of the step - cs_safe.abs documents this as "sign(x.real) if  *)
+(* x.real != 0 else sign(x.imag)").  All values are rational:              *)
+(*   abs     : sign(x) dx ;  |dx| at the kink x = 0                        *)
+(*   norm    : sum x_i dx_i / ||x||  along the axis (Pythagorean data);    *)
+(*             ||dx|| for an all-zero group (the kink of the norm)         *)
 (*   arctan2 : (x dy - y dx) / (x^2 + y^2)                                 *)
+(* abs is positively homogeneous: the point may be scaled by 10^e (tiny    *)
+(* real parts, e.g. smaller than the step) without changing Df.            *)
 (* The real part f(p) is NumPy's value (compared in the harness).          *)
 (*                                                                         *)
-(* smooth helpers: tanh is an uninterpreted odd function except at the     *)
-(* points where IEEE double gives an exact value: tanh(0) = 0 and          *)
-(* tanh(t) = +-1 for |t| >= 32.  Everywhere else its value is the          *)
-(* parameter +-q; an identity must hold for every q (law QIndependent).    *)
-(* exp(-t) = 0 for t >= 800 (underflow) for the KS functions.              *)
+(* smooth helpers: tanh is an UNINTERPRETED odd function u(t) except at    *)
+(* the points where IEEE double gives an exact value: tanh(0) = 0 and      *)
+(* tanh(t) = +-1 for |t| >= 32; tanh'(t) = 1 - u(t)^2.  log-sum-exp of the *)
+(* KS functions is an uninterpreted symmetric function of the scaled       *)
+(* differences with exp(d) = 0 for d <= -800 (underflow).  An identity is  *)
+(* exported only if it holds for every member of a family of such          *)
+(* functions (law QIndependent); it then holds for tanh / log-sum-exp.     *)
 (***************************************************************************)
 EXTENDS Rat, Naturals, FiniteSets, TLC, Json
 
-CONSTANTS Kinds          \* subset of {"abs", "norm", "arctan2", "smooth"}
+CONSTANTS Kinds,         \* subset of {"abs", "norm", "arctan2", "smooth"}
+          Dirs,          \* perturbation directions of abs / norm, e.g. {-1, 0, 2}
+          Scales         \* decimal exponents e of the scale 10^e of the abs points
+
+\* values for the configuration file (which cannot express negative numbers): Dirs <- DirsQuick etc.
+DirsQuick == {-1, 0, 2}
+DirsThorough == -2..2
+ScalesQuick == {0, -36, -41, -300}
+ScalesThorough == {0, -36, -41, -300, -7, 30}
 
 RECURSIVE SumI(_, _)
 SumI(F, n) == IF n = 0 THEN 0 ELSE F[n] + SumI(F, n - 1)
 RECURSIVE SumN(_, _)
 SumN(F, n) == IF n = 0 THEN Zero ELSE Add(F[n], SumN(F, n - 1))
 ISqrt(n) == CHOOSE r \in 0..n : r * r = n
+PerfectSq(n) == \E r \in 0..n : r * r = n
 
 \* --- abs ------------------------------------------------------------------------------------------------
 AbsRe(x) == Abs(x)
-\* set of admissible derivatives
-AbsD(x, dx) == IF x # 0 THEN {R(Sgn(x) * dx)} ELSE {R(dx), R(-dx)}
+\* one-sided directional derivative of |.| at x in direction dx
+AbsD(x, dx) == IF x # 0 THEN R(Sgn(x) * dx) ELSE R(Abs(dx))
 
 \* --- norm: data is a matrix (sequence of rows); axis "none" | 0 | 1; a vector is a 1 x n matrix with axis "none" ---
 NormGroups(s) ==      \* the index sets <<r, c>> summed together, in output order
@@ -43,114 +60,227 @@ NormGroups(s) ==      \* the index sets <<r, c>> summed together, in output orde
 RECURSIVE SumSet(_, _, _)
 SumSet(S, A, Bm) == IF S = {} THEN 0 ELSE LET e == CHOOSE e \in S : TRUE IN A[e[1]][e[2]] * Bm[e[1]][e[2]] + SumSet(S \ {e}, A, Bm)
 NormRe(s) == LET g == NormGroups(s) IN [k \in 1..Len(g) |-> ISqrt(SumSet(g[k], s.x, s.x))]
-NormD(s) == LET g == NormGroups(s) IN [k \in 1..Len(g) |-> Q(SumSet(g[k], s.x, s.dx), ISqrt(SumSet(g[k], s.x, s.x)))]
+\* an all-zero group is the kink of the norm: the one-sided directional derivative is ||dx||
+NormD(s) == LET g == NormGroups(s)
+            IN [k \in 1..Len(g) |->
+                  LET ss == SumSet(g[k], s.x, s.x)
+                  IN IF ss = 0 THEN R(ISqrt(SumSet(g[k], s.dx, s.dx)))
+                     ELSE Q(SumSet(g[k], s.x, s.dx), ISqrt(ss))]
 
 \* --- arctan2 -------------------------------------------------------------------------------------------
-At2D(y, x, dy, dx) == Q(x * dy - y * dx, x * x + y * y)
+At2D(y, x, dy, dx) == IF x = 0 /\ y = 0 THEN NaN ELSE Q(x * dy - y * dx, x * x + y * y)
 Quadrant(y, x) == CASE x > 0 /\ y > 0 -> "I" [] x < 0 /\ y > 0 -> "II" [] x < 0 /\ y < 0 -> "III" [] x > 0 /\ y < 0 -> "IV"
                     [] y = 0 /\ x > 0 -> "+x" [] y = 0 /\ x < 0 -> "-x" [] x = 0 /\ y > 0 -> "+y" [] x = 0 /\ y < 0 -> "-y"
+                    [] x = 0 /\ y = 0 -> "origin"
 
 \* --- smooth helpers with tanh uninterpreted off the exact points --------------------------------------------
-TanhR(t, q) == IF t = Zero THEN Zero
+Fams == 1..3
+\* a family of odd functions with values in (-1, 1): two increasing ones and a decreasing one
+TanhU(t, j) == CASE j = 1 -> Div(t, Add(One, RAbs(t)))
+                 [] j = 2 -> Div(t, Add(R(2), RAbs(t)))
+                 [] j = 3 -> Div(Neg(t), Add(R(3), RAbs(t)))
+TanhR(t, j) == IF t = Zero THEN Zero
                ELSE IF Ge(t, R(32)) THEN One
                ELSE IF Le(t, R(-32)) THEN R(-1)
-               ELSE IF RSgn(t) > 0 THEN q ELSE Neg(q)
-Exact(t) == t = Zero \/ Ge(t, R(32)) \/ Le(t, R(-32))
-DTanhR(t, q) == LET th == TanhR(t, q) IN Sub(One, Mul(th, th))
+               ELSE TanhU(t, j)
+DTanhR(t, j) == LET th == TanhR(t, j) IN Sub(One, Mul(th, th))
 \* args follow the Python signatures
-Act(x, mu, z, a, b, q) == Add(Mul(Mul(Q(1, 2), Sub(b, a)), Add(One, TanhR(Div(Sub(x, z), mu), q))), a)
-DAct(x, mu, z, a, b, q) == Div(Mul(Mul(Q(1, 2), Sub(b, a)), DTanhR(Div(Sub(x, z), mu), q)), mu)
-SMax(x, y, mu, q) == LET g == Act(x, mu, y, Zero, One, q) IN Add(Mul(g, x), Mul(Sub(One, g), y))
-SMin(x, y, mu, q) == LET g == Act(x, mu, y, Zero, One, q) IN Add(Mul(g, y), Mul(Sub(One, g), x))
-DSMax(x, y, mu, q) == LET g == Act(x, mu, y, Zero, One, q)
-                          dg == DAct(x, mu, y, Zero, One, q)
+Act(x, mu, z, a, b, j) == Add(Mul(Mul(Q(1, 2), Sub(b, a)), Add(One, TanhR(Div(Sub(x, z), mu), j))), a)
+DAct(x, mu, z, a, b, j) == Div(Mul(Mul(Q(1, 2), Sub(b, a)), DTanhR(Div(Sub(x, z), mu), j)), mu)
+SMax(x, y, mu, j) == LET g == Act(x, mu, y, Zero, One, j) IN Add(Mul(g, x), Mul(Sub(One, g), y))
+SMin(x, y, mu, j) == LET g == Act(x, mu, y, Zero, One, j) IN Add(Mul(g, y), Mul(Sub(One, g), x))
+\* derivatives w.r.t. the first (x) and the second (y) argument
+DSMax(x, y, mu, j) == LET g == Act(x, mu, y, Zero, One, j)
+                          dg == DAct(x, mu, y, Zero, One, j)
                       IN Add(Mul(dg, Sub(x, y)), g)
-DSMin(x, y, mu, q) == LET g == Act(x, mu, y, Zero, One, q)
-                          dg == DAct(x, mu, y, Zero, One, q)
+DSMaxY(x, y, mu, j) == LET g == Act(x, mu, y, Zero, One, j)
+                           dg == DAct(x, mu, y, Zero, One, j)
+                       IN Add(Mul(dg, Sub(y, x)), Sub(One, g))
+DSMin(x, y, mu, j) == LET g == Act(x, mu, y, Zero, One, j)
+                          dg == DAct(x, mu, y, Zero, One, j)
                       IN Add(Mul(dg, Sub(y, x)), Sub(One, g))
-SAbs(x, mu, q) == Mul(x, Act(x, mu, Zero, R(-1), One, q))
-DSAbs(x, mu, q) == Add(Act(x, mu, Zero, R(-1), One, q), Mul(x, DAct(x, mu, Zero, R(-1), One, q)))
+DSMinY(x, y, mu, j) == LET g == Act(x, mu, y, Zero, One, j)
+                           dg == DAct(x, mu, y, Zero, One, j)
+                       IN Add(Mul(dg, Sub(x, y)), g)
+SAbs(x, mu, j) == Mul(x, Act(x, mu, Zero, R(-1), One, j))
+DSAbs(x, mu, j) == Add(Act(x, mu, Zero, R(-1), One, j), Mul(x, DAct(x, mu, Zero, R(-1), One, j)))
 Floor(x) == R(x[1] \div x[2])
-SRound(x, mu, q) == LET fl == Floor(x) IN Add(fl, Mul(Q(1, 2), Add(One, TanhR(Div(Sub(Sub(x, fl), Q(1, 2)), mu), q))))
-DSRound(x, mu, q) == LET fl == Floor(x) IN Div(Mul(Q(1, 2), DTanhR(Div(Sub(Sub(x, fl), Q(1, 2)), mu), q)), mu)
-\* KS: only a single element or entries separated by rho * diff >= 800 (every other exponential underflows to 0)
+SRound(x, mu, j) == LET fl == Floor(x) IN Add(fl, Mul(Q(1, 2), Add(One, TanhR(Div(Sub(Sub(x, fl), Q(1, 2)), mu), j))))
+DSRound(x, mu, j) == LET fl == Floor(x) IN Div(Mul(Q(1, 2), DTanhR(Div(Sub(Sub(x, fl), Q(1, 2)), mu), j)), mu)
+\* KS: max + LSE(rho (x - max)) / rho with LSE an uninterpreted symmetric function of the scaled differences,
+\* LSE = 0 when only one exponential survives (a single element, or every other one underflows)
 SeqMax(xs) == CHOOSE m \in {xs[i] : i \in 1..Len(xs)} : \A i \in 1..Len(xs) : Le(xs[i], m)
 SeqMin(xs) == CHOOSE m \in {xs[i] : i \in 1..Len(xs)} : \A i \in 1..Len(xs) : Le(m, xs[i])
-KsOk(xs, rho) == \A i, j \in 1..Len(xs) : i # j => Ge(Mul(rho, RAbs(Sub(xs[i], xs[j]))), R(800))
+ExpU(d, j) == IF Le(d, R(-800)) THEN Zero ELSE Div(One, Add(R(j), RAbs(d)))          \* d <= 0; ExpU(0) = 1/j
+LseU(D, j) == Sub(SumN([i \in 1..Len(D) |-> ExpU(D[i], j)], Len(D)), Q(1, j))
+KsMax(xs, rho, j) == LET m == SeqMax(xs) IN Add(m, Div(LseU([i \in 1..Len(xs) |-> Mul(rho, Sub(xs[i], m))], j), rho))
+KsMin(xs, rho, j) == LET m == SeqMin(xs) IN Sub(m, Div(LseU([i \in 1..Len(xs) |-> Mul(rho, Sub(m, xs[i]))], j), rho))
+\* gradient of KS where it is exactly rational: every element is extremal or underflows -> 1/k on the k extremal ones
+KsSharp(xs, rho, m) == \A i \in 1..Len(xs) : xs[i] = m \/ Ge(Mul(rho, RAbs(Sub(xs[i], m))), R(800))
+KsGrad(xs, m) == LET k == Cardinality({i \in 1..Len(xs) : xs[i] = m}) IN [i \in 1..Len(xs) |-> IF xs[i] = m THEN Q(1, k) ELSE Zero]
 
-TermVal(t, q) ==
-    LET a == t.args
-    IN CASE t.fn = "act_tanh" -> Act(a[1], a[2], a[3], a[4], a[5], q)
-         [] t.fn = "smooth_max" -> SMax(a[1], a[2], a[3], q)
-         [] t.fn = "smooth_min" -> SMin(a[1], a[2], a[3], q)
-         [] t.fn = "smooth_abs" -> SAbs(a[1], a[2], q)
-         [] t.fn = "smooth_round" -> SRound(a[1], a[2], q)
-         [] t.fn = "ks_max" -> SeqMax(Tail(a))
-         [] t.fn = "ks_min" -> SeqMin(Tail(a))
-TermD(t, q) ==       \* derivative w.r.t. the first argument
-    LET a == t.args
-    IN CASE t.fn = "act_tanh" -> DAct(a[1], a[2], a[3], a[4], a[5], q)
-         [] t.fn = "smooth_max" -> DSMax(a[1], a[2], a[3], q)
-         [] t.fn = "smooth_min" -> DSMin(a[1], a[2], a[3], q)
-         [] t.fn = "smooth_abs" -> DSAbs(a[1], a[2], q)
-         [] t.fn = "smooth_round" -> DSRound(a[1], a[2], q)
-         [] OTHER -> NaN
-\* the argument of tanh of a term (to decide whether the derivative is exactly rational)
-TermT(t) ==
-    LET a == t.args
-    IN CASE t.fn = "act_tanh" -> Div(Sub(a[1], a[3]), a[2])
-         [] t.fn \in {"smooth_max", "smooth_min"} -> Div(Sub(a[1], a[2]), a[3])
-         [] t.fn = "smooth_abs" -> Div(a[1], a[2])
-         [] t.fn = "smooth_round" -> Div(Sub(Sub(a[1], Floor(a[1])), Q(1, 2)), a[2])
-         [] OTHER -> One
-Comb(s, q) == SumN([k \in 1..Len(s.terms) |-> Mul(R(s.w[k]), TermVal(s.terms[k], q))], Len(s.terms))
-QVals == {Q(1, 3), Q(1, 2), Q(-2, 5)}        \* arbitrary values of the uninterpreted tanh (also a non-monotone one)
-SmoothOut(s) == LET q == Q(1, 3)
-                IN [v |-> Comb(s, q),
-                    d |-> IF Len(s.terms) = 1 /\ Exact(TermT(s.terms[1])) THEN TermD(s.terms[1], q) ELSE NaN]
+\* a term: function, full argument list, number of arguments actually passed (the others take the Python defaults)
+Defaults(fn) == CASE fn = "act_tanh" -> <<Zero, Q(1, 100), Zero, R(-1), One>>
+                  [] fn \in {"smooth_max", "smooth_min"} -> <<Zero, Zero, Q(1, 100)>>
+                  [] fn \in {"smooth_abs", "smooth_round"} -> <<Zero, Q(1, 100)>>
+                  [] fn \in {"ks_max", "ks_min"} -> <<R(100)>>              \* args of a KS term: <<rho, x_1, ..., x_n>>
+T(fn, a) == [fn |-> fn, args |-> a, given |-> Len(a)]
+TD(fn, a) == [fn |-> fn, args |-> a \o SubSeq(Defaults(fn), Len(a) + 1, Len(Defaults(fn))), given |-> Len(a)]
+KS(fn, rho, xs) == [fn |-> fn, args |-> <<rho>> \o xs, given |-> 1]
+KSD(fn, xs) == [fn |-> fn, args |-> Defaults(fn) \o xs, given |-> 0]
+IsKs(t) == t.fn \in {"ks_max", "ks_min"}
 
-T(fn, args) == [fn |-> fn, args |-> args]
-Mus == {Q(1, 4), Q(1, 2)}
+TermVal(t, j) ==
+    LET a == t.args
+    IN CASE t.fn = "act_tanh" -> Act(a[1], a[2], a[3], a[4], a[5], j)
+         [] t.fn = "smooth_max" -> SMax(a[1], a[2], a[3], j)
+         [] t.fn = "smooth_min" -> SMin(a[1], a[2], a[3], j)
+         [] t.fn = "smooth_abs" -> SAbs(a[1], a[2], j)
+         [] t.fn = "smooth_round" -> SRound(a[1], a[2], j)
+         [] t.fn = "ks_max" -> KsMax(Tail(a), a[1], j)
+         [] t.fn = "ks_min" -> KsMin(Tail(a), a[1], j)
+TermD(t, j) ==       \* derivative w.r.t. the first argument
+    LET a == t.args
+    IN CASE t.fn = "act_tanh" -> DAct(a[1], a[2], a[3], a[4], a[5], j)
+         [] t.fn = "smooth_max" -> DSMax(a[1], a[2], a[3], j)
+         [] t.fn = "smooth_min" -> DSMin(a[1], a[2], a[3], j)
+         [] t.fn = "smooth_abs" -> DSAbs(a[1], a[2], j)
+         [] t.fn = "smooth_round" -> DSRound(a[1], a[2], j)
+TermD2(t, j) ==      \* derivative w.r.t. the second argument (y of smooth_max / smooth_min)
+    LET a == t.args
+    IN CASE t.fn = "smooth_max" -> DSMaxY(a[1], a[2], a[3], j)
+         [] t.fn = "smooth_min" -> DSMinY(a[1], a[2], a[3], j)
+\* a scenario:  sum_k w[k] * term_k + k0  (value v);  with c # <<>> also its derivative along a parameter p with
+\* d(arg1 of term k)/dp = c[k][1], d(arg2 of term k)/dp = c[k][2]  (value d)
+Comb(s, j) == Add(s.k0, SumN([k \in 1..Len(s.terms) |-> Mul(s.w[k], TermVal(s.terms[k], j))], Len(s.terms)))
+CombD(s, j) == SumN([k \in 1..Len(s.terms) |->
+                       Mul(s.w[k], Add(IF s.c[k][1] = Zero THEN Zero ELSE Mul(s.c[k][1], TermD(s.terms[k], j)),
+                                       IF s.c[k][2] = Zero THEN Zero ELSE Mul(s.c[k][2], TermD2(s.terms[k], j))))],
+                 Len(s.terms))
+HasKg(s) == /\ IsKs(s.terms[1])           \* the gradient of the FIRST term
+            /\ LET a == s.terms[1].args
+                   xs == Tail(a)
+               IN KsSharp(xs, a[1], IF s.terms[1].fn = "ks_max" THEN SeqMax(xs) ELSE SeqMin(xs))
+SmoothOut(s) == [v |-> Comb(s, 1),
+                 d |-> IF s.c # <<>> THEN CombD(s, 1) ELSE NaN,
+                 kg |-> IF HasKg(s)
+                        THEN LET xs == Tail(s.terms[1].args)
+                             IN KsGrad(xs, IF s.terms[1].fn = "ks_max" THEN SeqMax(xs) ELSE SeqMin(xs))
+                        ELSE <<>>]
+
+Mus == {Q(1, 4), Q(1, 2), Q(1, 1024)}
 Zs == {R(-1), R(2)}
 ABs == {<<R(-1), One>>, <<Zero, One>>, <<R(2), R(-3)>>}
 Ds == {Q(1, 4), R(3)}
-SM(id, terms, w) == [kind |-> "smooth", id |-> id, terms |-> terms, w |-> w]
+SmallX == {Q(1, 256), Q(-1, 64), R(3)}
+MaxMin == {"smooth_max", "smooth_min"}
+KsFns == {"ks_max", "ks_min"}
+W1 == <<One>>
+C1 == << <<One, Zero>> >>
+SM(id, terms, w, k0, c) == [kind |-> "smooth", id |-> id, terms |-> terms, w |-> w, k0 |-> k0, c |-> c]
 SmoothScens ==
     LET far(mu) == Mul(R(32), mu)
-    IN  {SM("act_mid", <<T("act_tanh", <<z, mu, z, ab[1], ab[2]>>)>>, <<1>>) : mu \in Mus, z \in Zs, ab \in ABs}
-   \cup {SM("act_hi", <<T("act_tanh", <<Add(z, far(mu)), mu, z, ab[1], ab[2]>>)>>, <<1>>) : mu \in Mus, z \in Zs, ab \in ABs}
-   \cup {SM("act_lo", <<T("act_tanh", <<Sub(z, far(mu)), mu, z, ab[1], ab[2]>>)>>, <<1>>) : mu \in Mus, z \in Zs, ab \in ABs}
+        P2 == <<One, One>>
+        M2 == <<One, R(-1)>>
+        cx == <<One, Zero>>
+        cy == <<Zero, One>>
+    IN  \* --- act_tanh: mid point, saturation, antisymmetric pair, shift / scale / affine laws, defaults
+        {SM("act_mid", <<T("act_tanh", <<z, mu, z, ab[1], ab[2]>>)>>, W1, Zero, C1) : mu \in Mus, z \in Zs, ab \in ABs}
+   \cup {SM("act_hi", <<T("act_tanh", <<Add(z, far(mu)), mu, z, ab[1], ab[2]>>)>>, W1, Zero, C1) : mu \in Mus, z \in Zs, ab \in ABs}
+   \cup {SM("act_lo", <<T("act_tanh", <<Sub(z, far(mu)), mu, z, ab[1], ab[2]>>)>>, W1, Zero, C1) : mu \in Mus, z \in Zs, ab \in ABs}
    \cup {SM("act_pair", <<T("act_tanh", <<Add(z, d), mu, z, ab[1], ab[2]>>), T("act_tanh", <<Sub(z, d), mu, z, ab[1], ab[2]>>)>>,
-            <<1, 1>>) : mu \in Mus, z \in Zs, ab \in ABs, d \in Ds}
-   \cup {SM("max_equal", <<T(fn, <<z, z, mu>>)>>, <<1>>) : fn \in {"smooth_max", "smooth_min"}, mu \in Mus, z \in Zs}
-   \cup {SM("max_sat", <<T(fn, <<Add(z, far(mu)), z, mu>>)>>, <<1>>) : fn \in {"smooth_max", "smooth_min"}, mu \in Mus, z \in Zs}
-   \cup {SM("max_sat_rev", <<T(fn, <<z, Add(z, far(mu)), mu>>)>>, <<1>>) : fn \in {"smooth_max", "smooth_min"}, mu \in Mus, z \in Zs}
-   \cup {SM("max_plus_min", <<T("smooth_max", <<z, Add(z, d), mu>>), T("smooth_min", <<z, Add(z, d), mu>>)>>, <<1, 1>>) :
-            mu \in Mus, z \in Zs, d \in Ds}
-   \cup {SM("max_sym", <<T(fn, <<z, Add(z, d), mu>>), T(fn, <<Add(z, d), z, mu>>)>>, <<1, -1>>) :
-            fn \in {"smooth_max", "smooth_min"}, mu \in Mus, z \in Zs, d \in Ds}
-   \cup {SM("abs_zero", <<T("smooth_abs", <<Zero, mu>>)>>, <<1>>) : mu \in Mus}
-   \cup {SM("abs_sat", <<T("smooth_abs", <<Mul(R(sg), far(mu)), mu>>)>>, <<1>>) : mu \in Mus, sg \in {-1, 1, 2}}
-   \cup {SM("abs_even", <<T("smooth_abs", <<d, mu>>), T("smooth_abs", <<Neg(d), mu>>)>>, <<1, -1>>) : mu \in Mus, d \in Ds}
-   \cup {SM("round", <<T("smooth_round", <<Add(R(n), fr), mu>>)>>, <<1>>) :
+            P2, Zero, <<cx, <<R(-1), Zero>> >>) : mu \in Mus \ {Q(1, 1024)}, z \in Zs, ab \in ABs, d \in Ds}
+   \cup {SM("act_shift", <<T("act_tanh", <<Add(z, d), mu, z, ab[1], ab[2]>>), T("act_tanh", <<Add(Add(z, d), R(5)), mu, Add(z, R(5)), ab[1], ab[2]>>)>>,
+            M2, Zero, <<cx, cx>>) : mu \in {Q(1, 4), Q(1, 2)}, z \in Zs, ab \in ABs, d \in Ds}
+   \cup {SM("act_scale", <<T("act_tanh", <<Add(z, d), mu, z, ab[1], ab[2]>>),
+                           T("act_tanh", <<Mul(R(2), Add(z, d)), Mul(R(2), mu), Mul(R(2), z), ab[1], ab[2]>>)>>,
+            M2, Zero, <<cx, <<R(2), Zero>> >>) : mu \in {Q(1, 4), Q(1, 2)}, z \in Zs, ab \in ABs, d \in Ds}
+   \cup {SM("act_affine", <<T("act_tanh", <<Add(z, d), mu, z, ab[1], ab[2]>>), T("act_tanh", <<Add(z, d), mu, z, Zero, One>>)>>,
+            <<One, Sub(ab[1], ab[2])>>, Neg(ab[1]), <<cx, cx>>) : mu \in {Q(1, 4), Q(1, 2)}, z \in Zs, ab \in ABs, d \in Ds}
+   \cup {SM("act_default", <<TD("act_tanh", SubSeq(<<x, Q(1, 100), Zero, R(-1), One>>, 1, n)), T("act_tanh", <<x, Q(1, 100), Zero, R(-1), One>>)>>,
+            M2, Zero, <<cx, cx>>) : n \in 1..4, x \in {Q(1, 256), Q(-1, 128), One}}
+   \cup {SM("act_default_exact", <<TD("act_tanh", <<x>>)>>, W1, Zero, C1) : x \in {Zero, One, R(-2)}}
+        \* --- smooth_max / smooth_min
+   \cup {SM("max_equal", <<T(fn, <<z, z, mu>>)>>, W1, Zero, <<c>>) : fn \in MaxMin, mu \in Mus, z \in Zs, c \in {cx, cy}}
+   \cup {SM("max_sat", <<T(fn, <<Add(z, far(mu)), z, mu>>)>>, W1, Zero, <<c>>) : fn \in MaxMin, mu \in Mus, z \in Zs, c \in {cx, cy}}
+   \cup {SM("max_sat_rev", <<T(fn, <<z, Add(z, far(mu)), mu>>)>>, W1, Zero, <<c>>) : fn \in MaxMin, mu \in Mus, z \in Zs, c \in {cx, cy}}
+   \cup {SM("max_plus_min", <<T("smooth_max", <<z, Add(z, d), mu>>), T("smooth_min", <<z, Add(z, d), mu>>)>>, P2, Zero, <<c, c>>) :
+            mu \in {Q(1, 4), Q(1, 2)}, z \in Zs, d \in Ds, c \in {cx, cy}}
+   \cup {SM("max_sym", <<T(fn, <<z, Add(z, d), mu>>), T(fn, <<Add(z, d), z, mu>>)>>, M2, Zero, <<c, <<c[2], c[1]>> >>) :
+            fn \in MaxMin, mu \in {Q(1, 4), Q(1, 2)}, z \in Zs, d \in Ds, c \in {cx, cy}}
+   \cup {SM("max_shift", <<T(fn, <<z, Add(z, d), mu>>), T(fn, <<Add(z, R(5)), Add(Add(z, d), R(5)), mu>>)>>, M2, R(5), <<c, c>>) :
+            fn \in MaxMin, mu \in {Q(1, 4), Q(1, 2)}, z \in Zs, d \in Ds, c \in {cx, cy}}
+   \cup {SM("max_scale", <<T(fn, <<Mul(R(2), z), Mul(R(2), Add(z, d)), Mul(R(2), mu)>>), T(fn, <<z, Add(z, d), mu>>)>>, <<One, R(-2)>>, Zero,
+            << <<Mul(R(2), c[1]), Mul(R(2), c[2])>>, c>>) : fn \in MaxMin, mu \in {Q(1, 4), Q(1, 2)}, z \in Zs, d \in Ds, c \in {cx, cy}}
+   \cup {SM("max_neg_min", <<T("smooth_max", <<z, Add(z, d), mu>>), T("smooth_min", <<Neg(z), Neg(Add(z, d)), mu>>)>>, P2, Zero,
+            <<c, <<Neg(c[1]), Neg(c[2])>> >>) : mu \in {Q(1, 4), Q(1, 2)}, z \in Zs, d \in Ds, c \in {cx, cy}}
+        \* smooth_max(x, y, mu) = y + (x - y) act_tanh(x, mu, y, 0, 1)
+   \cup {SM("max_via_act", <<T("smooth_max", <<x, y, mu>>), T("act_tanh", <<x, mu, y, Zero, One>>)>>, <<One, Sub(y, x)>>, Neg(y), <<>>) :
+            mu \in {Q(1, 4), Q(1, 2)}, x \in Zs, y \in {Q(-5, 4), Q(7, 4)}}
+   \cup {SM("max_default", <<TD(fn, <<x, y>>), T(fn, <<x, y, Q(1, 100)>>)>>, M2, Zero, <<c, c>>) :
+            fn \in MaxMin, x \in {Q(1, 256), One}, y \in {Zero, Q(1, 128)}, c \in {cx, cy}}
+        \* --- smooth_abs
+   \cup {SM("abs_zero", <<T("smooth_abs", <<Zero, mu>>)>>, W1, Zero, C1) : mu \in Mus}
+   \cup {SM("abs_sat", <<T("smooth_abs", <<Mul(R(sg), far(mu)), mu>>)>>, W1, Zero, C1) : mu \in Mus, sg \in {-1, 1, 2}}
+   \cup {SM("abs_even", <<T("smooth_abs", <<d, mu>>), T("smooth_abs", <<Neg(d), mu>>)>>, M2, Zero, <<cx, <<R(-1), Zero>> >>) :
+            mu \in {Q(1, 4), Q(1, 2)}, d \in Ds \cup SmallX}
+   \cup {SM("abs_scale", <<T("smooth_abs", <<Mul(R(2), x), Mul(R(2), mu)>>), T("smooth_abs", <<x, mu>>)>>, <<One, R(-2)>>, Zero,
+            << <<R(2), Zero>>, cx>>) : mu \in {Q(1, 128), Q(1, 4)}, x \in SmallX}
+        \* smooth_abs(x, mu) = x act_tanh(x, mu, 0, -1, 1) = smooth_max(x, -x, 2 mu) = -smooth_min(x, -x, 2 mu)
+   \cup {SM("abs_via_act", <<T("smooth_abs", <<x, mu>>), T("act_tanh", <<x, mu, Zero, R(-1), One>>)>>, <<One, Neg(x)>>, Zero, <<>>) :
+            mu \in {Q(1, 128), Q(1, 4)}, x \in SmallX}
+   \cup {SM("abs_via_max", <<T("smooth_abs", <<x, mu>>), T("smooth_max", <<x, Neg(x), Mul(R(2), mu)>>)>>, M2, Zero, <<cx, <<One, R(-1)>> >>) :
+            mu \in {Q(1, 128), Q(1, 4)}, x \in SmallX}
+   \cup {SM("abs_via_min", <<T("smooth_abs", <<x, mu>>), T("smooth_min", <<x, Neg(x), Mul(R(2), mu)>>)>>, P2, Zero, <<cx, <<One, R(-1)>> >>) :
+            mu \in {Q(1, 128), Q(1, 4)}, x \in SmallX}
+   \cup {SM("abs_default", <<TD("smooth_abs", <<x>>), T("smooth_abs", <<x, Q(1, 100)>>)>>, M2, Zero, <<cx, cx>>) : x \in SmallX}
+   \cup {SM("abs_default_exact", <<TD("smooth_abs", <<x>>)>>, W1, Zero, C1) : x \in {Zero, One, R(-2)}}
+        \* --- smooth_round
+   \cup {SM("round", <<T("smooth_round", <<Add(R(n), fr), mu>>)>>, W1, Zero, C1) :
             n \in {-2, 0, 3}, fr \in {Zero, Q(1, 4), Q(1, 2), Q(3, 4)}, mu \in {Q(1, 128), Q(1, 256)}}
-   \cup {SM("ks_single", <<T(fn, <<R(100), z>>)>>, <<1>>) : fn \in {"ks_max", "ks_min"}, z \in Zs \cup {Q(-7, 2)}}
-   \cup {SM("ks_separated", <<T(fn, <<R(100), z, Add(z, R(8)), Sub(z, R(9))>>)>>, <<1>>) : fn \in {"ks_max", "ks_min"}, z \in Zs}
+   \cup {SM("round_shift", <<T("smooth_round", <<Add(R(n), fr), mu>>), T("smooth_round", <<fr, mu>>)>>, M2, R(-n), <<cx, cx>>) :
+            n \in {-2, 3}, fr \in {Q(1, 8), Q(3, 8), Q(5, 8)}, mu \in {Q(1, 4), Q(1, 16)}}
+   \cup {SM("round_mirror", <<T("smooth_round", <<Add(Q(2 * n + 1, 2), fr), mu>>), T("smooth_round", <<Sub(Q(2 * n + 1, 2), fr), mu>>)>>,
+            P2, R(-(2 * n + 1)), <<cx, <<R(-1), Zero>> >>) : n \in {-2, 0, 3}, fr \in {Q(1, 8), Q(3, 8)}, mu \in {Q(1, 4), Q(1, 16)}}
+   \cup {SM("round_default", <<TD("smooth_round", <<x>>), T("smooth_round", <<x, Q(1, 100)>>)>>, M2, Zero, <<cx, cx>>) :
+            x \in {Q(5, 8), Q(-11, 8), Q(33, 64)}}
+        \* --- KS
+   \cup {SM("ks_single", <<KS(fn, R(100), <<z>>)>>, W1, Zero, <<>>) : fn \in KsFns, z \in Zs \cup {Q(-7, 2)}}
+   \cup {SM("ks_separated", <<KS(fn, R(100), <<z, Add(z, R(8)), Sub(z, R(9))>>)>>, W1, Zero, <<>>) : fn \in KsFns, z \in Zs}
+        \* ties at the extremum: the value contains log(k)/rho (cancelled by the mirrored term), the gradient is 1/k
+   \cup {SM("ks_tie_sharp", <<KS(fn, R(100), xs), KS(IF fn = "ks_max" THEN "ks_min" ELSE "ks_max", R(100), [i \in 1..Len(xs) |-> Neg(xs[i])])>>,
+            P2, Zero, <<>>) : fn \in KsFns,
+            xs \in {<<R(2), R(2), R(-9), R(13)>>, <<R(13), R(-9), R(-9), R(2)>>, <<R(13), R(-9), R(13), R(-9)>>, <<Q(1, 2), Q(1, 2), Q(1, 2)>>}}
+   \cup {SM("ks_tie", <<KS("ks_max", rho, <<z, z, z>>), KS("ks_min", rho, <<z, z, z>>)>>, P2, Mul(R(-2), z), <<>>) : rho \in {R(100), Q(1, 2)}, z \in Zs}
+   \cup {SM("ks_shift", <<KS(fn, rho, <<z, Add(z, d), z>>), KS(fn, rho, <<Add(z, R(5)), Add(Add(z, d), R(5)), Add(z, R(5))>>)>>, M2, R(5), <<>>) :
+            fn \in KsFns, rho \in {R(100), Q(1, 2)}, z \in Zs, d \in {Q(1, 256), Q(1, 4)}}
+   \cup {SM("ks_neg", <<KS("ks_max", rho, <<z, Add(z, d), z>>), KS("ks_min", rho, <<Neg(z), Neg(Add(z, d)), Neg(z)>>)>>, P2, Zero, <<>>) :
+            rho \in {R(100), Q(1, 2)}, z \in Zs, d \in {Q(1, 256), Q(1, 4)}}
+   \cup {SM("ks_scale", <<KS(fn, Mul(Q(1, 2), rho), <<Mul(R(2), z), Mul(R(2), Add(z, d))>>), KS(fn, rho, <<z, Add(z, d)>>)>>, <<One, R(-2)>>, Zero, <<>>) :
+            fn \in KsFns, rho \in {R(100), Q(1, 2)}, z \in Zs, d \in {Q(1, 256), Q(1, 4)}}
+   \cup {SM("ks_perm", <<KS(fn, rho, <<z, Add(z, d), Sub(z, d), z>>), KS(fn, rho, <<Sub(z, d), z, z, Add(z, d)>>)>>, M2, Zero, <<>>) :
+            fn \in KsFns, rho \in {R(100), Q(1, 2)}, z \in Zs, d \in {Q(1, 256), Q(1, 4)}}
+   \cup {SM("ks_default", <<KSD(fn, <<z, Add(z, d)>>), KS(fn, R(100), <<z, Add(z, d)>>)>>, M2, Zero, <<>>) :
+            fn \in KsFns, z \in Zs, d \in {Q(1, 256), Q(1, 4)}}
+   \cup {SM("ks_default_sharp", <<KSD(fn, <<z, Add(z, R(8)), Add(z, R(8))>>), KS(fn, R(100), <<z, Add(z, R(8)), Add(z, R(8))>>)>>, M2, Zero, <<>>) :
+            fn \in KsFns, z \in Zs}
 
 \* --- enumeration -------------------------------------------------------------------------------------------
 Xs == -2..2
-Dirs == {-1, 0, 2}
 NormData == { << <<3, 4>> >>, << <<-4, 3>> >>, << <<1, -2, 2>> >>, << <<2, 3, 6>> >>, << <<0, -5>> >>, << <<7>> >>, << <<-2>> >>,
               << <<3, 4>>, <<-12, 5>> >>, << <<1, 2>>, <<2, 4>> >>, << <<3, 0>>, <<4, 3>> >>, << <<2, -4>>, <<5, 6>> >>,
-              << <<1, 2, 2>>, <<-2, 3, 6>> >> }
-\* axes for which every group of the data is Pythagorean
-PerfectSq(n) == \E r \in 0..n : r * r = n
+              << <<1, 2, 2>>, <<-2, 3, 6>> >>,
+              \* zeros: all-zero arrays and all-zero rows / columns
+              << <<0>> >>, << <<0, 0>> >>, << <<0, 0, 0>> >>, << <<0, 0>>, <<3, 4>> >>, << <<0, 3>>, <<0, 4>> >>,
+              << <<0, 0>>, <<0, 0>> >>, << <<0>>, <<0>> >> }
+\* axes for which every group of the data is Pythagorean (possibly zero)
 AxesOf(x) == {ax \in {"none", "0", "1"} :
                  LET g == NormGroups([x |-> x, axis |-> ax])
-                 IN \A k \in 1..Len(g) : LET ss == SumSet(g[k], x, x) IN ss > 0 /\ PerfectSq(ss)}
-Base == (IF "abs" \in Kinds THEN {[kind |-> "abs", n |-> n] : n \in 1..3} ELSE {})
+                 IN \A k \in 1..Len(g) : PerfectSq(SumSet(g[k], x, x))}
+ZeroMat(x) == [r \in 1..Len(x) |-> [c \in 1..Len(x[1]) |-> 0]]
+Base == (IF "abs" \in Kinds THEN {[kind |-> "abs", n |-> n, e |-> e] : n \in 1..3, e \in Scales} ELSE {})
    \cup (IF "norm" \in Kinds THEN {[kind |-> "norm", x |-> x, axis |-> ax] : x \in NormData, ax \in {"none", "0", "1"}} ELSE {})
-   \cup (IF "arctan2" \in Kinds THEN {[kind |-> "arctan2", y |-> y, x |-> x] : y \in Xs, x \in Xs} \ {[kind |-> "arctan2", y |-> 0, x |-> 0]} ELSE {})
+   \cup (IF "arctan2" \in Kinds THEN {[kind |-> "arctan2", y |-> y, x |-> x] : y \in Xs, x \in Xs} ELSE {})
    \cup (IF "smooth" \in Kinds THEN {[kind |-> "smooth", id |-> id] : id \in {sc.id : sc \in SmoothScens}} ELSE {})
 
 VARIABLES stage, scen, out
@@ -165,16 +295,21 @@ Choose ==
     /\ CASE scen.kind = "abs" ->
               \E x \in [1..scen.n -> Xs], dx \in [1..scen.n -> Dirs] :
                  /\ (scen.n = 3 => (x[1] = 0 /\ x[2] < 0 /\ x[3] > 0))      \* n = 3: one of each sign class per vector
-                 /\ scen' = [kind |-> "abs", n |-> scen.n, x |-> x, dx |-> dx]
+                 /\ scen' = [kind |-> "abs", n |-> scen.n, e |-> scen.e, x |-> x, dx |-> dx]
          [] scen.kind = "norm" ->
               /\ scen.axis \in AxesOf(scen.x)
               /\ \E dx \in [1..Len(scen.x) -> [1..Len(scen.x[1]) -> Dirs]] :
-                    /\ (Len(scen.x) * Len(scen.x[1]) > 3 =>
-                           \A r \in 1..Len(scen.x) : \A c \in 1..Len(scen.x[1]) : dx[r][c] # 0 \/ (r + c) % 2 = 0)
+                    /\ \/ dx = ZeroMat(scen.x)                              \* real input
+                       \/ Len(scen.x) * Len(scen.x[1]) <= 3
+                       \/ \A r \in 1..Len(scen.x) : \A c \in 1..Len(scen.x[1]) : dx[r][c] # 0 \/ (r + c) % 2 = 0
+                    \* at the kink (all-zero group) the directional derivative ||dx|| must be rational
+                    /\ LET g == NormGroups(scen)
+                       IN \A k \in 1..Len(g) : SumSet(g[k], scen.x, scen.x) = 0 => PerfectSq(SumSet(g[k], dx, dx))
                     /\ scen' = [kind |-> "norm", x |-> scen.x, axis |-> scen.axis, dx |-> dx]
          [] scen.kind = "arctan2" ->
               \E dy \in {-1, 0, 1, 2}, dx \in {-1, 0, 1, 2} :
-                 /\ <<dy, dx>> # <<0, 0>>
+                 \* the origin has no derivative: real arguments only
+                 /\ (<<dy, dx>> = <<0, 0>>) <=> (scen.y = 0 /\ scen.x = 0)
                  /\ scen' = [kind |-> "arctan2", y |-> scen.y, x |-> scen.x, dy |-> dy, dx |-> dx]
          [] scen.kind = "smooth" -> \E sc \in SmoothScens : sc.id = scen.id /\ scen' = sc
     /\ out' = OutOf(scen')
@@ -183,26 +318,54 @@ Next == Choose
 \* --- laws -----------------------------------------------------------------------------------------------------
 AbsLaw == (stage = 1 /\ scen.kind = "abs") =>
             \A k \in 1..scen.n :
-               /\ out.re[k] >= 0 /\ out.re[k] * out.re[k] = scen.x[k] * scen.x[k]
-               /\ out.d[k] = AbsD(-scen.x[k], -scen.dx[k])                        \* |x| is even
-               /\ \A d \in out.d[k] : RAbs(d) = R(Abs(scen.dx[k]))
+               LET x == scen.x[k]
+                   dx == scen.dx[k]
+               IN /\ out.re[k] >= 0 /\ out.re[k] * out.re[k] = x * x
+                  /\ out.d[k] = AbsD(-x, -dx)                                     \* |x| is even
+                  /\ RAbs(out.d[k]) = R(Abs(dx))
+                  \* one-sided directional derivative: |.| is piecewise linear, so the difference quotient along dx is
+                  \* exact as soon as the segment does not cross the kink (3|x| > |dx| for x # 0; from the kink itself)
+                  /\ out.d[k] = R(Abs(3 * x + dx) - Abs(3 * x))
+                  /\ out.d[k] = AbsD(7 * x, dx)                                   \* positive homogeneity: the scale is irrelevant
+                  /\ (x = 0 => out.d[k][1] >= 0)
 NormLaw == (stage = 1 /\ scen.kind = "norm") =>
              LET g == NormGroups(scen)
-             IN \A k \in 1..Len(g) :
-                   /\ out.re[k] > 0 /\ out.re[k] * out.re[k] = SumSet(g[k], scen.x, scen.x)
-                   \* Euler (direction x gives the norm itself) and Cauchy-Schwarz
-                   /\ Q(SumSet(g[k], scen.x, scen.x), out.re[k]) = R(out.re[k])
-                   /\ Le(Mul(out.d[k], out.d[k]), R(SumSet(g[k], scen.dx, scen.dx)))
+                 neg(m) == [r \in 1..Len(m) |-> [c \in 1..Len(m[1]) |-> -m[r][c]]]
+             IN /\ \A k \in 1..Len(g) :
+                      LET ss == SumSet(g[k], scen.x, scen.x)
+                          dd == SumSet(g[k], scen.dx, scen.dx)
+                      IN /\ out.re[k] >= 0 /\ out.re[k] * out.re[k] = ss
+                         \* Euler (direction x gives the norm itself) and Cauchy-Schwarz
+                         /\ ss > 0 => Q(ss, out.re[k]) = R(out.re[k])
+                         /\ Le(Mul(out.d[k], out.d[k]), R(dd))
+                         \* kink: the one-sided slope ||dx|| (>= 0, equality in Cauchy-Schwarz)
+                         /\ ss = 0 => (out.d[k][1] >= 0 /\ Mul(out.d[k], out.d[k]) = R(dd))
+                \* the norm is even
+                /\ out.d = NormD([x |-> neg(scen.x), axis |-> scen.axis, dx |-> neg(scen.dx)])
 At2Law == (stage = 1 /\ scen.kind = "arctan2") =>
+             IF scen.y = 0 /\ scen.x = 0 THEN out.d = NaN /\ scen.dy = 0 /\ scen.dx = 0
+             ELSE
              /\ At2D(scen.y, scen.x, scen.y, scen.x) = Zero                          \* radial direction
              /\ At2D(scen.y, scen.x, scen.x, -scen.y) = One                          \* tangential direction
              /\ out.d = Neg(At2D(scen.x, scen.y, scen.dx, scen.dy))                  \* atan2(y,x) + atan2(x,y) is locally constant
              /\ out.d = At2D(2 * scen.y, 2 * scen.x, 2 * scen.dy, 2 * scen.dx)      \* homogeneity
 QIndependent == (stage = 1 /\ scen.kind = "smooth") =>
-                  /\ \A q \in QVals : Comb(scen, q) = out.v
-                  /\ (Len(scen.terms) = 1 /\ Exact(TermT(scen.terms[1]))) => \A q \in QVals : TermD(scen.terms[1], q) = out.d
+                  /\ \A j \in Fams : Comb(scen, j) = out.v
+                  /\ scen.c # <<>> =>
+                        /\ Len(scen.c) = Len(scen.terms)
+                        /\ \A k \in 1..Len(scen.terms) :
+                              /\ ~IsKs(scen.terms[k])
+                              /\ scen.c[k][2] # Zero => scen.terms[k].fn \in MaxMin
+                        /\ \A j \in Fams : CombD(scen, j) = out.d
+                  /\ Len(scen.w) = Len(scen.terms)
+                  \* omitted arguments are the documented defaults
                   /\ \A k \in 1..Len(scen.terms) :
-                        scen.terms[k].fn \in {"ks_max", "ks_min"} =>
-                           KsOk(Tail(scen.terms[k].args), scen.terms[k].args[1])
+                        LET t == scen.terms[k]
+                            df == Defaults(t.fn)
+                        IN IF IsKs(t) THEN t.given = 0 => t.args[1] = df[1]
+                           ELSE /\ Len(t.args) = Len(df) /\ t.given >= 1
+                                /\ \A i \in (t.given + 1)..Len(df) : t.args[i] = df[i]
+                  \* KS gradient exported only where it is rational, and it sums to one
+                  /\ out.kg # <<>> => SumN(out.kg, Len(out.kg)) = One
 Export == stage = 1 => PrintT(<<"EXP", ToJson([s |-> scen, v |-> out])>>)
 =============================================================================
